@@ -10,6 +10,7 @@ EXPLANATION = ("C19 (narrow): the scheme table entry is selected only when the w
                "used only when the text fits strictly; the clone allocates what it copies and rebases nullable components only "
                "when they are set; authority URLs always pass the canonicaliser, which ends in the UTF-8 validator. Canonical "
                "form, idempotence and round trips are value-level and not decided.")
+EXPLANATION += ' Round 3: a numeric port is a complete conversion (R7); the IPv6 brackets of nng_url_sprintf depend on the host only (R8).'
 
 
 def rule_r1(ctx):
